@@ -183,7 +183,7 @@ impl Prop for C09 {
             if o_lf.matches('\n').count() >= 2 && toks.iter().any(|t| matches!(t.kind, RK::LineComment | RK::BlockComment | RK::Str | RK::MlStr)) {
                 out.nontrivial.push(rng::hash_combine(rng::hash_str(&input), rng::hash_str(&base.short())));
             }
-            if k == 0 && idx < 2 {
+            if out.sample.is_none() && idx < 32 {
                 out.sample = Some(json!({"generator": kind, "config": base.short(), "input": short(&input, 200), "crlf output": short(&o_cr, 200)}));
             }
         }
